@@ -15,19 +15,27 @@ F : Lean session check `checkFaithful` (meaning proved in Reader/FaithfulCheck.l
     Reader (every acceleration level, random chunking / bufio size / Read sizes; valid, synthesised, faulty, cut, flipped
     streams followed by foreign bytes) judged by the specification inflater directly: delivered bytes are a prefix of its
     output, io.EOF iff complete and completely delivered with the source exactly behind the final block, error kinds
+S : Lean stream check `checkStream` applied to whole streams the real flate Writers emit; `inflate_frame` /
+    `specInflater_exact` prove that a checked stream decodes to the same data whatever follows and that the specification
+    inflater stops exactly behind it (C05 at the level of the specification; removes the abstract inflater contract from the
+    gzip read-back theorem)
+FG : whole gzip files (several members, both encoders; intact, + garbage, cut, bit flipped) through the REAL gzip Reader vs
+    the Lean Reader model `readAllMembers` over the specification inflater (header grammar, CRC-32, ISIZE, member loop)
+FZ : the same for zlib streams followed by the caller's bytes through a *bufio.Reader: outcome, payload and the number of bytes
+    left in the source after io.EOF vs the Lean model `readZlib` over the specification inflater
 K : Lean checksum / gzip / zlib header and trailer definitions vs hash/crc32, hash/adler32 and fastgo's container bytes
 """
 KINDS = {
-    "C01": ["I", "W", "H", "G", "E"],
+    "C01": ["I", "W", "H", "G", "E", "S"],
     "C02": ["I", "R", "F"],
     "C03": ["I", "R", "F"],
     "C04": ["R"],
-    "C05": ["R", "F"],
-    "C06": ["K", "ZW", "GW"],
-    "C07": ["K"],
-    "C08": ["K"],
+    "C05": ["R", "F", "S", "FZ"],
+    "C06": ["K", "ZW", "GW", "FG", "FZ"],
+    "C07": ["K", "FG", "FZ"],
+    "C08": ["K", "FG"],
     "C09": ["W"],
-    "C10": ["I", "W", "H", "ZW", "GW", "G", "E"],
+    "C10": ["I", "W", "H", "ZW", "GW", "G", "E", "S"],
     "C11": ["R"],
     "C12": ["W", "ZW", "GW"],
     "C13": ["R"],
@@ -38,5 +46,5 @@ KINDS = {
     "C19": ["I", "W", "G"],
     "C20": ["W", "H", "G", "E"],
 }
-COUNT = {"I": (300, 3000), "W": (600, 6000), "R": (400, 4000), "K": (600, 6000), "G": (600, 6000), "H": (400, 4000), "ZW": (300, 3000), "GW": (300, 3000), "E": (120, 1500), "F": (300, 3000)}
-PER_LEVEL = {"G", "E", "F"}
+COUNT = {"I": (300, 3000), "W": (600, 6000), "R": (400, 4000), "K": (600, 6000), "G": (600, 6000), "H": (400, 4000), "ZW": (300, 3000), "GW": (300, 3000), "E": (120, 1500), "F": (300, 3000), "S": (200, 2000), "FG": (300, 3000), "FZ": (300, 3000)}
+PER_LEVEL = {"G", "E", "F", "S", "FG", "FZ"}
